@@ -14,6 +14,7 @@ import B2Z.Model.IcfDamage
 import B2Z.Model.EncodeProto
 import B2Z.Model.Checks
 import B2Z.Model.Cli
+import B2Z.Model.SchemaJson
 /-! JSON line-protocol driver: one request object per line in, one JSON value per line out.
     Only `Model.*` (core Lean) is imported, so this also builds as a native executable. -/
 open Lean
@@ -219,6 +220,27 @@ def epCfg (j : Json) : Except String EP.Cfg := do
          ents := fun p a => (ents.getD p []).getD a [], initSeq := initSeq,
          wseq := fun p => wseq.getD p [], rmWork := fun p => rmWork.getD p [], rmStale := fun p => rmStale.getD p [],
          mvOrder := fun p a => (mv.getD p []).getD a [], rmWip := rmWip, ridxSeq := ridx }
+
+instance : Inhabited SchemaJson.J := ⟨.null⟩
+
+partial def toJ : Json → SchemaJson.J
+  | .null => .null
+  | .bool b => .bool b
+  | .num n => .num n.mantissa      -- the schema holds integers only (exponent 0)
+  | .str s => .str s
+  | .arr a => .arr (a.toList.map toJ)
+  | .obj kv =>
+    -- Lean's Json objects are key-sorted; the codec config lists its `id` first
+    let l := kv.toList.map fun (k, v) => (k, toJ v)
+    .obj ((l.filter fun p => p.1 == "id") ++ (l.filter fun p => p.1 != "id"))
+
+partial def ofJ : SchemaJson.J → Json
+  | .null => .null
+  | .bool b => .bool b
+  | .num n => .num (JsonNumber.fromInt n)
+  | .str s => .str s
+  | .arr l => .arr (l.map ofJ).toArray
+  | .obj kv => Json.mkObj (kv.map fun (k, v) => (k, ofJ v))
 
 def handle (j : Json) : Except String Json := do
   let op ← (← j.getObjVal? "op").getStr?
@@ -489,6 +511,14 @@ def handle (j : Json) : Except String Json := do
   | "cli.guard" =>
     let e ← (← j.getObjVal? "exists").getBool?; let f ← (← j.getObjVal? "force").getBool?; let c ← (← j.getObjVal? "confirm").getBool?
     pure (Json.str (match Cli.overwriteGuard e f c with | .proceed => "proceed" | .abort => "abort" | .replace => "replace"))
+  | "schema.json_roundtrip" =>
+    -- the real schema document, key order preserved by the caller as a list of [key, value] pairs is not needed:
+    -- the model looks keys up by name
+    let doc ← j.getObjVal? "doc"
+    let expected ← (← j.getObjVal? "expected_version").getStr?
+    match SchemaJson.Schema.ofJ expected (toJ doc) with
+    | .error e => pure (Json.mkObj [("error", Json.str e)])
+    | .ok sch => pure (Json.mkObj [("doc", ofJ sch.toJ), ("n_fields", Json.num (JsonNumber.fromNat sch.fields.length))])
   | "xp.hist" =>
     let c ← xpCfg j
     let hist ← (← reqArr j "history").toList.mapM xpCmd
